@@ -527,10 +527,19 @@ struct Runner {
         newClient(cfg);
         ctx.reset(caseId, { { "cfg", cfg }, { "conn0", peer.connections } });
         const auto steps = beh["steps"].toArray();
+        // The honest reconnection appended to the behaviour (see lib/props/_stream.py) lies between
+        // EpilogueStart and EpilogueMark.  If it cannot be carried through -- the client does not
+        // react (hang detector) or has closed the connection (step impossible) -- the reconnection
+        // did not succeed: the Epilogue event is emitted all the same and judged on what was reached.
+        bool inEpilogue = false;
         for (const auto &sv : steps) {
+            if (sv.toObject()["k"].toString() == "EpilogueStart") {
+                inEpilogue = true;
+                continue;
+            }
             if (sv.toObject()["k"].toString() == "EpilogueMark") {
-                // end of the honest reconnection appended to the behaviour (see lib/props/_stream.py)
-                ctx.emit_({ { "e", "Epilogue" }, { "skipped", false } });
+                ctx.emit_({ { "e", "Epilogue" }, { "skipped", false }, { "complete", true } });
+                inEpilogue = false;
                 continue;
             }
             bool was = false;
@@ -539,11 +548,17 @@ struct Runner {
             struct Acc { QMap<QString, qint64> *m; QString k; QElapsedTimer *t; ~Acc() { (*m)[k] += t->nsecsElapsed() / 1000; if (t->elapsed() > 100 && qEnvironmentVariableIsSet("QXV_SLOW")) fprintf(stderr, "slow %s %lld ms\n", qPrintable(k), (long long)t->elapsed()); } } acc { &usPerKind, sv.toObject()["k"].toString(), &stepTimer };
             if (!step(sv.toObject(), was)) {
                 ctx.emit_({ { "e", "Impossible" }, { "step", sv.toObject() } });
+                if (inEpilogue) {
+                    ctx.emit_({ { "e", "Epilogue" }, { "skipped", false }, { "complete", false } });
+                }
                 break;
             }
             if (was) {
                 // the implementation did not react within the hang-detector bound: stop this
                 // execution (already recorded with "hang":true), do not pile timeouts on top
+                if (inEpilogue) {
+                    ctx.emit_({ { "e", "Epilogue" }, { "skipped", false }, { "complete", false } });
+                }
                 break;
             }
         }
